@@ -11,10 +11,13 @@ The same schedule is handed to the Lean driver (`M parties`: `Model.stepParty` o
 directories (names, contents, modification times).  Independently the final tree is judged by the property oracle (every message
 exactly once, intact, no stray or partial file, no abnormal exit).
 
-A wrong final tree is a KNOWN finding only if (a) the model yields the same tree for the same schedule and (b) it falls under the
-rule by which the pinned histories of F13/F14 were listed (tools/pin_histories.py): a `label` party that was preempted while its new
-copy was in flight -> F14; else a `flag` party that was preempted, all strays empty, no duplicate -> F13; a loss, an abnormal exit,
-a damaged copy or anything else is a violation.
+A wrong final tree is a KNOWN finding only if (a) the model yields the same tree for the same schedule and (b) its history is
+listed in known/C17_sched_histories.json (produced once from the pinned tree by `tools/pin_histories.py sched`, reviewed, committed,
+only read here).  For the families that are enumerated completely the table holds the EXACT histories (parties, rule shape, the
+phases in which each party was preempted, every exit status, what is wrong with which message).  For the sampled families it holds
+history SHAPES (rule shape, which message is duplicated / lost / size class of a stray, and the (kind, phase) pairs of preempted
+parties that have to be present).  Anything else - another loss, another duplicate, a damaged copy, an abnormal exit, or a listed
+history the model does not reproduce - is a violation.
 """
 import concurrent.futures as cf
 import itertools
@@ -100,27 +103,19 @@ class Combo:
         spec = ws.Spec('|'.join(kinds), conf0, self.pats, tree=tree, devmap=tuple('%s/%s' % (R, d) for d in devs))
         self.scen = spec.build(wt)
         root = self.scen.root
-        self.confs, self.blocks = [], []
-        mi = 0
+        self.h, self.henv = h, henv
+        self.confs, self.texts, self.blocks = [], [], None
         for i, k in enumerate(kinds):
             if k in MD_KINDS:
                 text = conf_for(k, root, rule)
-                path = os.path.join(root, CONF_NAMES[i])
                 for base in (root, self.scen._saved):
                     with open(os.path.join(base, CONF_NAMES[i]), 'w', encoding='latin-1') as fh:
                         fh.write(text)
-                out = vlib.run_batch([h], ['ast %s %s' % (world.blob(text), world.blob(os.path.join(root, 'home')))], henv, nproc=1)[0]
-                if not out.startswith('BLOCKS'):
-                    raise vlib.CheckError('C17 schedules: the configuration of party %s is rejected: %s' % (k, out[:200]))
-                filled = ec.fill_patterns(out.split(' ')[1:], self.pats)
-                if filled is None:
-                    raise vlib.CheckError('C17 schedules: cannot fill the patterns of party %s' % k)
-                self.confs.append(path)
-                self.blocks.append('\n'.join(b.strip() for b in filled.split(' ;') if b.strip()))
-                mi += 1
+                self.confs.append(os.path.join(root, CONF_NAMES[i]))
+                self.texts.append(text)
             else:
                 self.confs.append(None)
-                self.blocks.append(None)
+                self.texts.append(None)
         # the client listed the maildir when it started: its operations are fixed by the initial tree
         self.client_ops = {}
         msgs = sorted(rel for rel in ws.maildir_files(self.scen.initial))
@@ -166,9 +161,27 @@ class Combo:
                     pass
         self.scen.cleanup()
 
+    def _blocks(self):
+        """The configurations as the real parser reads them (harness `ast`), once per sandbox (only the model needs them)."""
+        if self.blocks is None:
+            self.blocks = []
+            for k, text in zip(self.kinds, self.texts):
+                if text is None:
+                    self.blocks.append(None)
+                    continue
+                out = vlib.run_batch([self.h], ['ast %s %s' % (world.blob(text), world.blob(os.path.join(self.scen.root, 'home')))], self.henv, nproc=1)[0]
+                if not out.startswith('BLOCKS'):
+                    raise vlib.CheckError('C17 schedules: the configuration of party %s is rejected: %s' % (k, out[:200]))
+                filled = ec.fill_patterns(out.split(' ')[1:], self.pats)
+                if filled is None:
+                    raise vlib.CheckError('C17 schedules: cannot fill the patterns of party %s' % k)
+                self.blocks.append('\n'.join(b.strip() for b in filled.split(' ;') if b.strip()))
+        return self.blocks
+
     # ---- the model's request for a schedule -------------------------------------------------------------------------------
     def request(self, sched):
         root = self.scen.root
+        self._blocks()
         plines = []
         for i, k in enumerate(self.kinds):
             if k in MD_KINDS:
@@ -431,7 +444,7 @@ class Combo:
         """-> list of disagreements between the real run and the model's run of the same schedule."""
         if not answer.startswith('OK ST '):
             return ['the model does not run this schedule: %s' % answer[:300]]
-        m = re.match(r'OK ST (\S*) FS (.*?) TR (.*)$', answer)
+        m = re.match(r'OK ST (\S*) FS (.*?) TR (.*?) EV (\S*)$', answer)
         if not m:
             return ['unreadable answer: %s' % answer[:200]]
         diffs = []
@@ -482,24 +495,119 @@ class Combo:
                     diffs.append('modification time of %s/%r: set during the run says the model, real %d is older' % (d.replace(root, R), nme, t))
         return diffs
 
-    def classify(self, res, probs, diffs):
-        """The rule of tools/pin_histories.py for parties that were preempted, plus: the model yields the same tree."""
-        if diffs:
-            return 'unlisted'
-        if any(('lost' in p) or ('abnormal' in p) or ('not intact' in p) for p in probs):
-            return 'unlisted'
-        inflight = ('inflight-empty', 'inflight-complete')
-        if any(k == 'label' and any(ph in inflight for ph in res['preempted'][p]) for p, k in enumerate(self.kinds)):
-            return 'inflight-copy-visible'
-        strays = [p for p in probs if 'stray' in p]
-        dup = any('exists' in p for p in probs)
-        if any(k == 'flag' and res['preempted'][p] for p, k in enumerate(self.kinds)) and strays and all('(0 bytes)' in p for p in strays) and not dup:
-            return 'placeholder-visible'
-        return 'unlisted'
+    def eff_kind(self, p):
+        """Devices are global: where some party is `move-xdev`, dstA is another device for everybody and `move-A` copies too."""
+        k = self.kinds[p]
+        return 'move-xdev' if k == 'move-A' and 'move-xdev' in self.kinds else k
+
+    def history(self, res, probs, answer=''):
+        """(exact signature, shape key) of a run that ended in a wrong tree.  The shape carries `stale-unlink` when the model's
+        history of the same schedule has a successful unlinkat of a name that was bound to another file than the one the party had
+        opened under it (the driver's EV field)."""
+        rs = 'match-all' if self.rule != RULE else 'match-real'
+        sig = ' || '.join(['+'.join(self.kinds), rs,
+                           ';'.join('%s:%s' % (self.kinds[p], ','.join(res['preempted'][p]) or '-') for p in range(len(self.kinds))),
+                           'exit=' + ','.join(str(x) for x in res['status']), ' ; '.join(sorted(set(norm_problem(p) for p in probs)))])
+        victims = sorted(set('%s:%s' % (self.eff_kind(p), ph) for p in range(len(self.kinds)) for ph in res['preempted'][p]))
+        m = re.search(r' EV (\S*)$', answer)
+        stale = bool(m) and any(x not in ('', '0') for x in m.group(1).split(','))
+        return sig, shape_key(rs, problem_shape(probs) + (['stale-unlink'] if stale else []), victims)
 
 
 def norm_problem(p):
     return re.sub(r'\d{6,}\.\d+_(\d+)\.\w+', r'N\1', p)
+
+
+def problem_shape(probs):
+    """What is wrong, without names: dup<i> / lost<i> (message i), stray0 / stray-short (up to 40 bytes: a header block only) /
+    stray-long, OTHER (a damaged copy, an abnormal exit: never part of a listed history)."""
+    out = set()
+    for p in probs:
+        m = re.match(r'message (\d+) exists', p)
+        if m:
+            out.add('dup' + m.group(1))
+            continue
+        m = re.match(r'message (\d+) lost', p)
+        if m:
+            out.add('lost' + m.group(1))
+            continue
+        m = re.match(r'stray file .* \((\d+) bytes\)', p)
+        if m:
+            n = int(m.group(1))
+            out.add('stray0' if n == 0 else 'stray-short' if n <= 40 else 'stray-long')
+            continue
+        out.add('OTHER')
+    return sorted(out)
+
+
+def shape_key(rule_shape, pshape, victims):
+    return ' || '.join([rule_shape, ','.join(pshape), ','.join(victims)])
+
+
+INFLIGHT = ('inflight-empty', 'inflight-complete')
+COPIERS = ('label', 'move-xdev')
+
+
+def review_class(rule_shape, pshape, victims):
+    """The rule by which tools/pin_histories.py PROPOSES a class for a history of the pinned tree (the proposals are reviewed and
+    committed as a table; the check itself never calls this).  pshape: what is wrong (problem_shape) plus `stale-unlink` (see
+    Combo.history); victims: 'kind:phase' of the preempted parties."""
+    if 'OTHER' in pshape or not [t for t in pshape if t != 'stale-unlink']:
+        return None
+    kinds_pre = set(v.split(':')[0] for v in victims)
+    inflight = set(v.split(':')[0] for v in victims if v.split(':')[1] in INFLIGHT)
+    lost = any(t.startswith('lost') for t in pshape)
+    dup = any(t.startswith('dup') for t in pshape)
+    strays = [t for t in pshape if t.startswith('stray')]
+    stale = 'stale-unlink' in pshape
+    flag_pre = 'flag' in kinds_pre
+    copier_pre = any(k in kinds_pre for k in COPIERS)
+    if stale and copier_pre and dup and not strays:
+        # F31: a copying party removed BY NAME a file that was not the one it had opened under that name (the name was renamed away
+        # by a flag party, or rolled back by a copying party, and generated again): one message twice, possibly another one gone
+        return 'name-reuse-unlink'
+    if lost:
+        if rule_shape == 'match-all' and any(k in inflight for k in COPIERS) and strays and all(t in ('stray0', 'stray-short') for t in strays) and not dup:
+            return 'inflight-copy-loss'               # F32
+        return None
+    if 'label' in inflight:
+        return 'inflight-copy-visible'                # F14, as before
+    if flag_pre and strays and not dup and (all(t == 'stray0' for t in strays) or
+                                            (rule_shape == 'match-all' and all(t in ('stray0', 'stray-short') for t in strays))):
+        # F13, as before; with rules matching every file the party that takes the placeholder for a message may be one that moves
+        # across devices: it WRITES the empty message (one byte) instead of renaming the empty file
+        return 'placeholder-visible'
+    return None
+
+
+SCHED_TABLE = os.path.join(vlib.ROOT, 'known', 'C17_sched_histories.json')
+EXHAUSTIVE = ('one-preemption', 'two-preemptions', 'match-all')
+
+
+def load_table():
+    import json
+    try:
+        t = json.load(open(SCHED_TABLE))
+    except OSError:
+        t = {}
+    shapes = []
+    for key, cls in sorted(t.get('shapes', {}).items()):
+        rs, ps, vs = key.split(' || ')
+        shapes.append((rs, ps, set(v for v in vs.split(',') if v), cls))
+    return {'exact': t.get('exact', {}), 'shapes': shapes}
+
+
+def table_class(table, family, sig, shape):
+    """Class of a wrong tree the model reproduces: the exact history for the enumerated families, a listed shape whose preempted
+    (kind, phase) pairs are all present for the sampled ones; else `unlisted`."""
+    if family in EXHAUSTIVE or family == 'witness':
+        return table['exact'].get(sig, 'unlisted')
+    rs, ps, vs = shape.split(' || ')
+    have = set(v for v in vs.split(',') if v)
+    for trs, tps, tvs, cls in table['shapes']:
+        if trs == rs and tps == ps and tvs <= have:
+            return cls
+    return 'unlisted'
 
 
 # --------------------------------------------------------------------------------------------------------------------------
@@ -531,11 +639,16 @@ def lengths(kinds, rule=RULE):
 
 
 def run_job(job):
-    """job = (family, kinds, rule, [schedules]) -> compact result."""
+    """job = (family, kinds, rule, [schedules]) -> compact result: counters and, per distinct history of a wrong tree or disagreement,
+    its count and one example."""
     family, kinds, rule, scheds = job
     c = Combo(_W['wt'], _W['h'], _W['henv'], kinds, rule)
     out = {'family': family, 'kinds': kinds, 'rule': 'match-all' if rule != RULE else 'match-real', 'n': 0, 'switches': 0, 'clean': 0,
-           'known': {}, 'bad': [], 'signatures': set(), 'model_agrees': 0, 'calls': 0}
+           'hist': {}, 'model_agrees': 0, 'calls': 0}
+
+    def note(key, example):
+        e = out['hist'].setdefault(key, {'n': 0, 'example': example})
+        e['n'] += 1
     try:
         results, answers = [], []
 
@@ -546,8 +659,9 @@ def run_job(job):
                 results.append((s, c.run(s)))
             except vlib.CheckError as e:
                 # the harness lost a party: report it with the schedule, go on in a fresh sandbox
-                out['bad'].append({'family': family, 'parties': list(kinds), 'rule': rule, 'schedule': sched_text(s), 'history': 'harness', 'what': [],
-                                   'model_disagrees': ['harness: %s' % e], 'notes': [], 'exit': None, 'root': c.scen.root, 'traces': None})
+                out['n'] += 1
+                note(('harness', str(e)[:80], '', False), {'family': family, 'parties': list(kinds), 'rule': rule, 'schedule': sched_text(s), 'what': [],
+                                                            'model_disagrees': ['harness: %s' % e]})
                 flush()
                 c.cleanup()
                 c = Combo(_W['wt'], _W['h'], _W['henv'], kinds, rule)
@@ -560,26 +674,14 @@ def run_job(job):
             diffs = c.compare(res, ans)
             if not diffs:
                 out['model_agrees'] += 1
-            if not probs and not diffs and not [x for x in res['notes'] if 'timed out' in x]:
+            if not probs and not diffs:
                 out['clean'] += 1
                 continue
-            cls = c.classify(res, probs, diffs) if probs else 'unlisted'
-            sig = ' || '.join(['+'.join(kinds), out['rule'], ';'.join('%s:%s' % (kinds[p], ','.join(res['preempted'][p]) or '-') for p in range(len(kinds))),
-                               'exit=' + ','.join(str(x) for x in res['status']), ' ; '.join(sorted(set(norm_problem(p) for p in probs)))])
-            if probs and cls != 'unlisted':
-                k = out['known'].setdefault(cls, {'n': 0, 'example': None})
-                k['n'] += 1
-                out['signatures'].add(cls + ' :: ' + sig)
-                if k['example'] is None:
-                    k['example'] = {'parties': list(kinds), 'rule': rule, 'schedule': sched_text(s), 'history': sig, 'what': probs[:5]}
-                continue
-            if len(out['bad']) < 5:
-                out['bad'].append({'family': family, 'parties': list(kinds), 'rule': rule, 'schedule': sched_text(s), 'history': sig,
-                                   'what': probs[:6], 'model_disagrees': diffs[:6], 'notes': res['notes'][:4],
-                                   'exit': res['status'], 'root': c.scen.root,
-                                   'traces': [[l for l in t][-12:] for t in res['traces']] if diffs else None})
-            else:
-                out['bad'].append(None)
+            sig, shape = c.history(res, probs, ans)
+            note((sig, shape, bool(probs), not diffs),
+                 {'family': family, 'parties': list(kinds), 'rule': rule, 'schedule': sched_text(s), 'history': sig, 'shape': shape, 'what': probs[:6],
+                  'model_disagrees': diffs[:6], 'notes': res['notes'][:4], 'exit': res['status'],
+                  'traces': [[l for l in t][-12:] for t in res['traces']] if diffs else None})
         return out
     finally:
         c.cleanup()
@@ -702,80 +804,90 @@ def families(rng, L, budget):
     return jobs
 
 
-def stage(rep, tools, sc, budget):
-    """Run the schedule families; report findings; -> coverage dict."""
+def sweep(tools, sc, seed, budget, only=None, progress=True):
+    """Run the families; -> (per-family counters, {history key: {n, example}}, total, wall seconds, processes).
+    history key = (family, exact signature, shape, has oracle problems, model agrees)."""
     t0 = time.time()
     h, henv = ec.harness(sc)
-    rng = random.Random(rep.seed * 7919 + 17)
+    rng = random.Random(seed * 7919 + 17)
     md = list(MD_KINDS)
-    allk = md + list(CLIENT_KINDS)
     ctx = multiprocessing.get_context('fork')
     nproc = int(os.environ.get('VERIF_JOBS', '0')) or vlib.NCPU
-    cov = {}
+    fam, hist, done = {}, {}, 0
     with cf.ProcessPoolExecutor(nproc, mp_context=ctx, initializer=_worker_init, initargs=(tools, h, henv)) as ex:
-        # lengths of the parties alone: by kind (they do not depend on who else is there), measured once per kind and rule shape
+        # calls of a party alone: by kind and rule shape (they lay out the schedules)
         single = {}
         kinds_rules = [(k, RULE) for k in md] + [(k, 'match all') for k in md]
         for (k, rule), ls in zip(kinds_rules, ex.map(_single_len, kinds_rules)):
             single[(k, rule)] = ls
-        vlib.log('C17 schedules: calls of a party alone: %s' % {('%s/%s' % (k, 'all' if r != RULE else 'real')): v for (k, r), v in single.items()})
 
         def L(kinds, rule=RULE):
             return [single[(k, rule)] if k in MD_KINDS else (1 if k == 'ext-rename' else 2) for k in kinds]
         jobs = families(rng, L, budget)
+        if only:
+            jobs = [j for j in jobs if j[0] in only]
         total = sum(len(j[3]) for j in jobs)
-        vlib.log('C17 schedules: %d schedules in %d jobs on %d processes' % (total, len(jobs), nproc))
-        # longest jobs first
+        if progress:
+            vlib.log('C17 schedules: calls of a party alone %s; %d schedules in %d jobs on %d processes' % (
+                {k: v for (k, r), v in single.items() if r == RULE}, total, len(jobs), nproc))
         jobs.sort(key=lambda j: -len(j[3]) * sum(L(j[1], j[2])))
-        fam = {}
-        known = {}
-        bad = []
-        sigs = set()
-        done = 0
         nextlog = time.time() + 20
         for out in ex.map(run_job, jobs, chunksize=1):
-            f = fam.setdefault(out['family'], {'schedules': 0, 'clean': 0, 'context_switches': 0, 'model_agrees': 0, 'calls': 0, 'known': {}, 'violations': 0,
-                                               'party_tuples': set()})
+            f = fam.setdefault(out['family'], {'schedules': 0, 'clean': 0, 'context_switches': 0, 'model_agrees': 0, 'calls': 0, 'party_tuples': set()})
             f['schedules'] += out['n']
             f['clean'] += out['clean']
             f['context_switches'] += out['switches']
             f['model_agrees'] += out['model_agrees']
             f['calls'] += out['calls']
             f['party_tuples'].add('+'.join(out['kinds']) + '/' + out['rule'])
-            for cls, k in out['known'].items():
-                f['known'][cls] = f['known'].get(cls, 0) + k['n']
-                e = known.setdefault(cls, {'n': 0, 'example': k['example']})
-                e['n'] += k['n']
-            f['violations'] += len(out['bad'])
-            bad.extend(b for b in out['bad'] if b is not None)
-            sigs |= out['signatures']
+            for key, e in out['hist'].items():
+                g = hist.setdefault((out['family'],) + key, {'n': 0, 'example': e['example']})
+                g['n'] += e['n']
             done += out['n']
-            if time.time() >= nextlog:
-                vlib.log('C17 schedules: %d / %d schedules, %d known-class histories, %d violations, %.0f s' % (
-                    done, total, sum(e['n'] for e in known.values()), len(bad), time.time() - t0))
+            if progress and time.time() >= nextlog:
+                vlib.log('C17 schedules: %d / %d schedules, %d of them end in a wrong tree or differ from the model (%d distinct histories), %.0f s' % (
+                    done, total, sum(g['n'] for g in hist.values()), len(hist), time.time() - t0))
                 nextlog = time.time() + 20
-    for cls, e in sorted(known.items()):
-        rep.finding(cls, dict(e['example'], stage='schedules'))
-        if cls in rep.known and e['n'] > 1:
-            rep.known_hits[cls][0] += e['n'] - 1
-    oracle_bad = [b for b in bad if b['what']]
-    model_bad = [b for b in bad if not b['what']]
-    for b in oracle_bad[:10]:
-        rep.finding('unlisted', dict(b, stage='schedules', replay_cmd='python3 tools/check.py C17 --replay <this file>'))
-    if model_bad and not rep.violations:
-        rep.violation({'obligation': 'correspondence: real parties along a schedule and Model/Parties.lean along the same schedule end differently '
-                                     '(calls, results, exit status or final directories); the property oracle found nothing wrong in these runs',
-                       'stage': 'schedules', 'disagreements': len(model_bad), 'examples': model_bad[:6]}, False)
     for f in fam.values():
         f['party_tuples'] = len(f['party_tuples'])
-    ex_fams = ('one-preemption', 'two-preemptions', 'match-all')
-    cov = {
-        'schedules': done, 'wall_s': round(time.time() - t0, 1), 'processes': nproc,
-        'families': {k: dict(v, exhaustive=(k in ex_fams)) for k, v in sorted(fam.items())},
-        'exhaustive': {k: True for k in ex_fams if k in fam},
+    return fam, hist, done, time.time() - t0, nproc
+
+
+def stage(rep, tools, sc, budget):
+    """Run the schedule families; report findings; -> coverage dict."""
+    table = load_table()
+    fam, hist, done, wall, nproc = sweep(tools, sc, rep.seed, budget)
+    known, bad_oracle, bad_model, nbad, sigs = {}, [], [], 0, 0
+    for (family, sig, shape, has_probs, agrees), g in sorted(hist.items(), key=lambda kv: str(kv[0])):
+        f = fam[family]
+        cls = table_class(table, family, sig, shape) if (has_probs and agrees) else 'unlisted'
+        if cls != 'unlisted':
+            sigs += 1
+            f.setdefault('known', {})
+            f['known'][cls] = f['known'].get(cls, 0) + g['n']
+            e = known.setdefault(cls, {'n': 0, 'example': g['example']})
+            e['n'] += g['n']
+            continue
+        nbad += g['n']
+        f['violations'] = f.get('violations', 0) + g['n']
+        (bad_oracle if has_probs else bad_model).append(dict(g['example'], schedules_with_this_history=g['n']))
+    for cls, e in sorted(known.items()):
+        rep.finding(cls, dict({k: v for k, v in e['example'].items() if k != 'traces'}, stage='schedules'))
+        if cls in rep.known and e['n'] > 1:
+            rep.known_hits[cls][0] += e['n'] - 1
+    for b in bad_oracle[:10]:
+        rep.finding('unlisted', dict(b, stage='schedules', replay_cmd='python3 tools/check.py C17 --replay <this file>'))
+    if bad_model and not rep.violations:
+        rep.violation({'obligation': 'correspondence: real parties along a schedule and Model/Parties.lean along the same schedule end differently '
+                                     '(calls, results, exit status or final directories); the property oracle found nothing wrong in these runs',
+                       'stage': 'schedules', 'disagreements': len(bad_model), 'examples': bad_model[:6]}, False)
+    return {
+        'schedules': done, 'wall_s': round(wall, 1), 'processes': nproc,
+        'families': {k: dict(v, exhaustive=(k in EXHAUSTIVE)) for k, v in sorted(fam.items())},
+        'exhaustive': {k: True for k in EXHAUSTIVE if k in fam},
         'known_class_histories': {cls: e['n'] for cls, e in known.items()},
-        'distinct_known_histories': len(sigs),
-        'violations': len(bad),
+        'distinct_known_histories': sigs,
+        'violations': nbad,
         'what': 'one-preemption: every ordered pair of {move-A, move-B, move-xdev, flag, label, discard} x {the same, external rename, external delete}, the '
                 'second party whole before call k of the first, every k; two-preemptions: first party up to k1, second up to k2, first to its end, '
                 'second to its end, every (k1, k2) of every ordered pair of mdsort parties (against the client: first up to k1, client k2 steps, first '
@@ -783,9 +895,30 @@ def stage(rep, tools, sc, budget):
                 'pairs; three-switches, three-parties (two or three mdsort runs and the client), fine-grained (next party drawn every 1-4 calls): '
                 'schedules drawn with the PRNG (VERIF_SEED).  Every schedule: real parties under the shim, one running at a time; the same schedule in '
                 'Model/Parties.lean through the driver; compared call by call, exit statuses, final directories; the final tree judged by the '
-                'exactly-once oracle',
+                'exactly-once oracle; a wrong tree is known only if the model reproduces it and its history is listed (known/C17_sched_histories.json)',
     }
-    return cov
+
+
+WITNESS_F31 = (('flag', 'label'), RULE, '0:26 1:12 0:* 1:*')
+
+
+def witness(rep, tools):
+    """Quick tier: ONE fixed two-preemption schedule that re-confirms F31 on every run (real parties and the oracle only; the
+    history must be the listed one)."""
+    wt = WTools(tools)
+    kinds, rule, st = WITNESS_F31
+    c = Combo(wt, None, None, kinds, rule)
+    try:
+        res = c.run(parse_sched(st))
+        probs = c.oracle(res)
+        sig, shape = c.history(res, probs)
+        cls = load_table()['exact'].get(sig, 'unlisted') if probs else None
+        if probs:
+            rep.finding(cls, {'stage': 'schedules', 'parties': list(kinds), 'rule': rule, 'schedule': st, 'history': sig, 'what': probs[:5],
+                              'exit': res['status'], 'replay_cmd': 'python3 tools/check.py C17 --replay <this file>'})
+        return {'schedule': st, 'parties': list(kinds), 'history': sig, 'class': cls, 'wrong_tree': bool(probs)}
+    finally:
+        c.cleanup()
 
 
 def _single_len(kr):
